@@ -1126,7 +1126,6 @@ def run_independent(case: dict) -> Result:
         par = run_parallel(case, perturb_seed=None if k < 0 else case["pseed"] * 1000 + k)
         tag = "default-schedule" if k < 0 else f"perturbed-{k}"
         res.count("parallel_runs")
-        res.count("barriers_seen", 1)  # no barriers exist without links; keeps MUST_OBSERVE family-neutral
         if k >= 0:
             res.count("perturbed_runs")
             res.count("line_callbacks", par["lines"])
@@ -1139,7 +1138,7 @@ def run_independent(case: dict) -> Result:
             break
         n = sum(len(l) for l in par["logs"].values())
         res.count("deliveries_compared", n)
-        res.count("cross_deliveries_checked", n)  # nothing crosses here; the counter means 'deliveries under the exactness oracle'
+        res.count("independent_deliveries_compared", n)
         res.count("events_monitored", n)
         if par["tt"] or ref["tt"]:
             res.add("event-discarded-as-past", "Simulation", "independent-partitions", f"[{tag}] {par['tt'][:2]}")
@@ -1173,8 +1172,6 @@ def run_config(case: dict) -> Result:
     res = Result()
     res.nontrivial = True
     res.count("config_checks")
-    for k in MUST_OBSERVE:
-        res.count(k)  # this family has no deliveries; keep MUST_OBSERVE family-neutral
     cls = _entity_cls()
     n = case["nparts"]
     part_of = {f"e{i}": i for i in range(n)}
@@ -1262,9 +1259,20 @@ def _prune(case, keep: set[int]) -> dict:
     return c
 
 
+_SHRUNK_KEYS: set = set()  # per worker process: one shrunken witness per mechanism key is enough
+
+
 def shrink_script(case, still_fails, budget_s: float = 2.5):
     """Remove events (with their subtrees) while the same mechanism key still fires.
-    Wall-clock bounded: shrinking is a convenience, never part of a verdict."""
+    Wall-clock bounded: shrinking is a convenience, never part of a verdict.  Only the first
+    case per mechanism key in a worker process is shrunk (the runner keeps one replay per key,
+    taken from the lowest case index, i.e. from the first shard)."""
+    probe_case = dict(case)
+    probe_case["K"] = 0
+    keys = {v.key() for v in run_linked(probe_case).violations}
+    if keys and keys <= _SHRUNK_KEYS:
+        return case
+    _SHRUNK_KEYS.update(keys)
     deadline = time.monotonic() + budget_s
     info, _ = _script_index(case)
     pids = sorted(info)
